@@ -57,18 +57,20 @@ def groupedDigits : Str → Option Str
 /-- CPython's `sys.int_max_str_digits` default -/
 def maxStrDigits : Nat := 4300
 
+/-- optional sign: (negative?, rest) -/
+def signSplit : Str → Bool × Str
+  | '-' :: r => (true, r)
+  | '+' :: r => (false, r)
+  | r => (false, r)
+
 /-- `int(s)` for a `str` argument; `none` = `ValueError` -/
 def pyInt (s : Str) : Option Int :=
-  let t := intStrip s
-  let (neg, body) := match t with
-    | '-' :: r => (true, r)
-    | '+' :: r => (false, r)
-    | r => (false, r)
-  match groupedDigits body with
+  let sb := signSplit (intStrip s)
+  match groupedDigits sb.2 with
   | none => none
   | some ds =>
     if ds.length > maxStrDigits then none
-    else some (if neg then -((decVal ds : Nat) : Int) else ((decVal ds : Nat) : Int))
+    else some (if sb.1 then -((decVal ds : Nat) : Int) else ((decVal ds : Nat) : Int))
 
 def digitChar (d : Nat) : Char := Char.ofNat (48 + d)
 
@@ -88,25 +90,28 @@ def showInt (i : Int) : Str :=
 /-- `$` of the `re` module (no MULTILINE): at the end, or just before a final newline -/
 def atDollar (r : Str) : Bool := r == [] || r == ['\n']
 
+/-- the regex after group 1 = `g` and `]`: `(?::(\d+))?$` on the rest `r`.  The optional port group is
+    tried first with the maximal digit run (giving digits back cannot help: `$` would then face a
+    digit), then without. -/
+def afterBracket (g r : Str) : Option (Str × Option Str) :=
+  let withPort : Option (Str × Option Str) :=
+    match r with
+    | ':' :: q =>
+      let ds := q.takeWhile isDigit
+      if !ds.isEmpty && atDollar (q.dropWhile isDigit) then some (g, some ds) else none
+    | _ => none
+  match withPort with
+  | some m => some m
+  | none => if atDollar r then some (g, none) else none
+
 /-- `re.match(r'^\[([^\]]+)\](?::(\d+))?$', s)`: groups 1 and 2.
-    `[^\]]+` is greedy and cannot give characters back (the next item is `]`); the optional
-    port group is tried first with the maximal digit run, then without. -/
+    `[^\]]+` is greedy and cannot give characters back (the next item is `]`). -/
 def bracketMatch (s : Str) : Option (Str × Option Str) :=
   match s with
   | '[' :: t =>
     let g := t.takeWhile (· != ']')
     match t.dropWhile (· != ']') with
-    | ']' :: r =>
-      if g.isEmpty then none else
-      let withPort : Option (Str × Option Str) :=
-        match r with
-        | ':' :: q =>
-          let ds := q.takeWhile isDigit
-          if !ds.isEmpty && atDollar (q.dropWhile isDigit) then some (g, some ds) else none
-        | _ => none
-      match withPort with
-      | some m => some m
-      | none => if atDollar r then some (g, none) else none
+    | ']' :: r => if g.isEmpty then none else afterBracket g r
     | _ => none
   | _ => none
 
@@ -211,7 +216,9 @@ def ipPref (flags : List Nat) : List Nat :=
   (if flags.contains 4 then [4] else []) ++ (if flags.contains 6 then [6] else [])
 
 /-- what the user asked for: the distinct flags in the order written -/
-def requestedOrder (flags : List Nat) : List Nat := flags.eraseDups
+def requestedOrder : List Nat → List Nat
+  | [] => []
+  | f :: r => f :: (requestedOrder r).filter (· != f)
 
 /-! ### `SSH_Socket._resolve` / `connect` -/
 
@@ -320,30 +327,45 @@ def fileTargets (content : Str) : List Str := cleanLines (readlines content)
 def UNKNOWN_ERROR : Int := -1
 def CONNECTION_ERROR : Int := 1
 
+/-- `22 if oport is None else oport` -/
+def optDefault (q : Option Int) : Int := match q with | none => 22 | some v => v
+
+/-- `process_commandline`: the positional target of a single-target run; `-p` is only the default
+    (`host, port = '', 22` otherwise) -/
+def cmdTarget (a : Args) : Except Exn (Str × Int) :=
+  if a.clientAudit = false ∧ a.targets = none then
+    match parseHostPort a.host (optDefault a.oport) with
+    | .error e => .error e
+    | .ok (h, p) => if h = [] then .error (.sysExit UNKNOWN_ERROR) else .ok (h, p)
+  else .ok ([], 22)
+
+/-- `process_commandline`: the `-p` statements that follow (client-audit default 2222; range check of
+    the option; the option is *the* port for `-c` and `-T`) -/
+def cmdPort (a : Args) (port : Int) : Except Exn Int :=
+  let port := if a.oport = none ∧ a.clientAudit = true then 2222 else port
+  match a.oport with
+  | none => .ok port
+  | some q =>
+    if q < 1 ∨ q > 65535 then .error (.sysExit UNKNOWN_ERROR)
+    else .ok (if a.clientAudit = true ∨ a.targets ≠ none then q else port)
+
 /-- `process_commandline`, the statements that touch host / port / IP versions / target list, in
     program order (`-L`, `-m`, `--lookup` are not used) -/
-def cmdline (a : Args) : Except Exn Conf := do
-  let pref := ipPref a.flags
-  if a.host = [] ∧ a.clientAudit = false ∧ a.targets = none then throw (.sysExit UNKNOWN_ERROR)
-  -- single target: -p is only the default
-  let (host, port) ←
-    if a.clientAudit = false ∧ a.targets = none then do
-      let (h, p) ← parseHostPort a.host (match a.oport with | none => 22 | some q => q)
-      if h = [] then throw (.sysExit UNKNOWN_ERROR)
-      pure (h, p)
-    else pure (([] : Str), (22 : Int))
-  let port := if a.oport = none ∧ a.clientAudit then 2222 else port
-  let port ←
-    match a.oport with
-    | none => pure port
-    | some q =>
-      if q < 1 ∨ q > 65535 then throw (.sysExit UNKNOWN_ERROR)
-      else pure (if a.clientAudit ∨ a.targets ≠ none then q else port)
-  let port ← checkPort port                       -- aconf.port = port
-  let tl := match a.targets with
-    | none => []
-    | some content => fileTargets content
-  pure { host := host, port := port, pref := pref, clientAudit := a.clientAudit, targetList := tl }
+def cmdline (a : Args) : Except Exn Conf :=
+  if a.host = [] ∧ a.clientAudit = false ∧ a.targets = none then .error (.sysExit UNKNOWN_ERROR) else
+  match cmdTarget a with
+  | .error e => .error e
+  | .ok (host, port) =>
+    match cmdPort a port with
+    | .error e => .error e
+    | .ok port =>
+      match checkPort port with                     -- aconf.port = port
+      | .error e => .error e
+      | .ok port =>
+        .ok { host := host, port := port, pref := ipPref a.flags, clientAudit := a.clientAudit,
+              targetList := match a.targets with
+                | none => []
+                | some content => fileTargets content }
 
 /-! ### `main` / `audit` (connection part) -/
 
@@ -373,6 +395,18 @@ def worker (pref : List Nat) (res : Resolver) (up : AddrInfo → Bool) (t : Str 
   | .error e => ([], .error e)
   | .ok p => auditTarget pref t.1 p res up
 
+/-- `for target in aconf.target_list: host, port = Utils.parse_host_and_port(target, default_port=aconf.port)`:
+    the first `ValueError` aborts the loop (and `main`) -/
+def parseAll (d : Int) : List Str → Except Exn (List (Str × Int))
+  | [] => .ok []
+  | t :: ts =>
+    match parseHostPort t d with
+    | .error e => .error e
+    | .ok hp =>
+      match parseAll d ts with
+      | .error e => .error e
+      | .ok r => .ok (hp :: r)
+
 /-- `main()` after `process_commandline`: a list of targets (every line is parsed before the
     first worker starts; all submitted workers run; an exception in a worker surfaces from
     `future.result()`), or the single target.  Events in submission order (`--threads 1`). -/
@@ -380,7 +414,7 @@ def runConf (c : Conf) (res : Resolver) (up : AddrInfo → Bool) :
     List Event × Except Exn (List (Except Exn Report)) :=
   if c.clientAudit then ([], .ok [])               -- listens; no outgoing connection (not modelled)
   else if c.targetList.length > 0 then
-    match c.targetList.mapM (fun t => parseHostPort t c.port) with
+    match parseAll c.port c.targetList with
     | .error e => ([], .error e)
     | .ok ts =>
       let rs := ts.map (worker c.pref res up)
